@@ -475,6 +475,20 @@ func ruleGracefulStopReturns(c *Ctx, rule string) {
 			okAll = pathAvoiding(fn, nil, isExit, isWait) == nil
 		}
 		c.check(okAll, rule, name+": waits for the Serve calls on every path", posOf(w, fn), "wg.Wait() on every path (deferred first, or before every return)", name+" has a return path that does not wait for the Serve calls (e.g. the 'already stopping' early return): a second or concurrent call returns while RPCs are in flight and Serve is still running")
+		// ... and never before shutdown has begun: an explicit (non-deferred) wait is not followed by the store of the state
+		stF := FieldRef{"ReverseTunnelServer", w.Roles().RTSState}
+		early := false
+		allInstrs(fn, func(in ssa.Instruction) {
+			if !isWait(in) {
+				return
+			}
+			for _, st := range storesToField(fn, stF) {
+				if reaches(in, st) || (in.Block() == st.Block() && instrIndex(in) < instrIndex(st)) {
+					early = true
+				}
+			}
+		})
+		c.check(!early, rule, name+": does not wait before shutdown has begun", posOf(w, fn), "the state is set before any explicit wg.Wait()", name+" waits for the Serve calls before it sets the state that refuses new RPCs / ends the tunnels: nothing ends them, so it blocks until the peers hang up, and meanwhile new RPCs are still accepted")
 	}
 }
 
